@@ -35,7 +35,7 @@ KEEPS_NUMBERING = {"resequence", "sort", "reverse", "permute_setter", "permute_p
 OWNER_OF_OP = {
     "set_platform": "C02", "flip3": "C02", "conv_obj": "C02",
     "delete_shadow": "C04", "shadow_triple": "C04",
-    "resequence": "C10", "ag_resequence": "C10",
+    "resequence": "C10", "ag_resequence": "C10", "resequence_group": "C10",
     "group": "C15", "ungroup": "C15", "sort": "C15", "reverse": "C15", "permute_setter": "C15",
     "permute_popins": "C15", "tcam": "C15",
     "ungroup_ports": "C19", "ungroup_ports_group": "C19", "ace_ungroup_ports": "C19",
@@ -48,7 +48,7 @@ ALPHABET = [
     "reparse", "copy", "export_import", "shading", "shadow_triple", "delete_shadow",
     "ungroup_ports", "ungroup_ports_group", "ace_ungroup_ports", "tcam", "set_item_seq",
     "set_remark_text", "set_members", "set_type", "conv_obj", "ag_resequence", "set_note", "set_ports", "scribble_ipnets",
-    "foreign_parse",
+    "foreign_parse", "resequence_group",
 ]
 
 BIAS = {
@@ -61,7 +61,7 @@ BIAS = {
             "ungroup": 1, "resequence": 1, "insert": 2, "append": 2, "set_platform": 1,
             "set_members": 5, "copy": 1, "permute_popins": 1, "set_note": 2,
             "scribble_ipnets": 2},
-    "C10": {"resequence": 10, "ag_resequence": 3, "group": 2, "ungroup": 1, "sort": 1,
+    "C10": {"resequence": 10, "ag_resequence": 3, "resequence_group": 3, "group": 2, "ungroup": 1, "sort": 1,
             "reverse": 1, "insert": 1, "append": 1, "pop": 1, "set_item_seq": 1,
             "permute_popins": 1, "set_platform": 1, "set_note": 2},
     "C15": {"group": 6, "ungroup": 5, "sort": 5, "reverse": 2, "permute_setter": 3,
@@ -813,6 +813,13 @@ class AclMachine(Machine):
                 self._fail("C15", "C15.sort-restores",
                            f"sort() after resequence and reordering did not restore the numbered "
                            f"order:\n{slot['numbered']}\n---\n{acl.line}", opkind=k)
+        elif k == "resequence_group":
+            self._count_owned("C10")
+            if exp.note and str(res) != exp.note:
+                self._fail("C10", "C10.return", f"AceGroup.resequence({op['start']},{op['step']}) "
+                                                f"returned {res}, last number is {exp.note}")
+            if exp.note:
+                self.probes["block_resequenced_on_its_own"] += 1
         elif k in ("delete_shadow", "shadow_triple"):
             m2 = self._oracle_delete_shadow(slot, op, res, m)
         elif k in ("ungroup_ports", "ungroup_ports_group"):
@@ -1720,6 +1727,18 @@ class AclMachine(Machine):
             else:
                 start = max(0, min(start, SEQ_MAX - span))
             return dict(op=kind, start=start, step=step)
+        if kind == "resequence_group":
+            i = s.randint(0, 50)
+            nb = len(m.blocks[i % n].rules) if n else 1
+            step = s.choice([1, 1, 5, 10, 2 ** 31])
+            span = max(nb - 1, 0) * step
+            start = s.choice([0, 1, 10, 100, SEQ_MAX - span, s.randint(1, 10 ** 6)])
+            if cfg["aborts"]:
+                step = s.choice([step, step, 0, -1])
+                start = s.choice([start, start, SEQ_MAX - span + 1, SEQ_MAX + 1, -1])
+            else:
+                start = max(0, min(start, SEQ_MAX - span))
+            return dict(op=kind, i=i, start=start, step=step)
         if kind == "group":
             return dict(op=kind, prefix=s.choice([gen.HEAD, gen.HEAD, gen.HEAD, "= H1", "zz", ""]))
         if kind == "sort":
